@@ -64,7 +64,9 @@ Inductive close_reason :=
 (* what the peer can put on the wire that survives parsing and validation *)
 Inductive item :=
 | IMsg (m : msg)
-| ILoop.                      (* an UPDATE announcing routes whose AS_PATH contains the local AS *)
+| ILoop                       (* an UPDATE announcing routes whose AS_PATH contains the local AS *)
+| IParseErr (code sub : N).   (* a message the codec or validate_message rejects with this NOTIFICATION,
+                                 e.g. an OPEN whose hold time is 1 or 2 (2/6) *)
 
 Inductive ev :=
 | ETick (dt : N)              (* time passes *)
@@ -170,6 +172,7 @@ Inductive act :=
 | AKaFired
 | ARx (m : msg)
 | ASkipLoop                   (* AS-loop UPDATE dropped before the FSM *)
+| AParseErr                   (* try_parse / validate_message failed: Terminate without the FSM *)
 | AEof
 | AFlush.
 
@@ -225,17 +228,20 @@ Definition start (c : cfg) (d : drv) (restarting : bool) : drv * lbl :=
   (set_ctrl (set_fsm d p' h' k' (d_live d)) (d_ctrl d || existsb is_send outs),
    {| l_time := d_now d; l_act := AStart; l_in := Some (Connected restarting); l_outs := outs; l_res := res |}).
 
-(* the `loop { try_parse ... rx_msg }` of the readable branch *)
+(* one element of the `loop { try_parse ... rx_msg }` of the readable branch *)
+Definition rx_item (c : cfg) (d : drv) (it : item) : drv * lbl :=
+  match it with
+  | IMsg m => feed c d (ARx m) (Recv m)
+  | ILoop => if c_loop_to_fsm c then feed c d (ARx MUpdate) (Recv MUpdate)
+             else quiet d ASkipLoop Cont
+  | IParseErr cd sb => quiet d AParseErr (Term (RLocalNotif cd sb) (Some (cd, sb)))
+  end.
+
 Fixpoint rx_loop (c : cfg) (d : drv) (its : list item) : drv * list lbl :=
   match its with
   | [] => (d, [])
   | it :: rest =>
-      let '(d1, l) :=
-        match it with
-        | IMsg m => feed c d (ARx m) (Recv m)
-        | ILoop => if c_loop_to_fsm c then feed c d (ARx MUpdate) (Recv MUpdate)
-                   else quiet d ASkipLoop Cont
-        end in
+      let '(d1, l) := rx_item c d it in
       if d_live d1 then let '(d2, ls) := rx_loop c d1 rest in (d2, l :: ls)
       else (d1, [l])
   end.
@@ -375,4 +381,5 @@ Definition run_case (lid lasn : N) (lcap : list cap) (lhold exp : N) (r : role) 
            (evs : list ev) : val :=
   let p := pfsm_new lid lasn lcap lhold exp [] in
   let '(d0, l0) := start cur (drv_init p r 0) restarting in
-  VL (v_drv d0 Cont :: observe cur d0 evs).
+  (* first: the hold time the OPEN just queued advertises *)
+  VL (VL [VN (open_hold lhold)] :: v_drv d0 Cont :: observe cur d0 evs).
